@@ -133,10 +133,17 @@ def gen():
 # Coq build
 # ------------------------------------------------------------------------------------------
 def coq_makefile():
+    """(re)generate coq/Makefile from coq/_CoqProject, listing only the .v files that exist
+    (several builders register files before they have written them)"""
     mk = os.path.join(COQ, "Makefile")
     cp = os.path.join(COQ, "_CoqProject")
-    if (not os.path.exists(mk)) or os.path.getmtime(mk) < os.path.getmtime(cp):
-        rc, txt = run(["coq_makefile", "-f", "_CoqProject", "-o", "Makefile"], cwd=COQ)
+    lines = open(cp).read().splitlines()
+    keep = [l for l in lines if not l.strip().endswith(".v") or os.path.exists(os.path.join(COQ, l.strip()))]
+    gen = "\n".join(keep) + "\n"
+    gp = os.path.join(COQ, ".CoqProject.existing")
+    changed = write_if_changed(gp, gen)
+    if changed or not os.path.exists(mk):
+        rc, txt = run(["coq_makefile", "-f", ".CoqProject.existing", "-o", "Makefile"], cwd=COQ)
         if rc != 0:
             raise RuntimeError("coq_makefile failed: " + txt)
 
@@ -252,11 +259,39 @@ def ocaml_build():
     """Extract/Extract.vo writes coq/extracted/*.ml(i) (Separate Extraction); compile them with the
     hand-written drivers of ocaml/ into build/ocaml/replay"""
     os.makedirs(os.path.join(COQ, "extracted"), exist_ok=True)
-    targets = sorted("Extract/" + f[:-2] + ".vo" for f in os.listdir(os.path.join(COQ, "Extract")) if f.endswith(".v"))
-    for t in targets:       # one at a time: they write overlapping files into coq/extracted
-        ok, txt, cmd = coq_make([t])
-        if not ok:
-            return False, txt
+    # Separate Extraction writes only the needed part of each library module, so several
+    # extraction commands would overwrite each other's BinNums.ml etc.: merge the item lists of all
+    # Extract/Extract*.v files into ONE generated command (Extract/All.v).
+    imports, items = [], []
+    for f in sorted(os.listdir(os.path.join(COQ, "Extract"))):
+        if not (f.startswith("Extract") and f.endswith(".v")):
+            continue
+        src = strip_coq_comments(open(os.path.join(COQ, "Extract", f)).read())
+        for m in re.finditer(r'^[ \t]*From[ \t]+MiV[ \t]+Require[ \t]+Import[ \t]+(.+)\.[ \t]*$', src, re.M):
+            for mod in m.group(1).split():
+                if mod not in imports:
+                    imports.append(mod)
+        m = re.search(r'Separate\s+Extraction\s+(.*?)\.\s', src, re.S)
+        if m:
+            for it in m.group(1).split():
+                if it not in items:
+                    items.append(it)
+    allv = ("(* GENERATED by tools/vlib.py from Extract/Extract*.v -- one extraction command for all models *)\n"
+            "From Coq Require Import Extraction ExtrOcamlBasic NArith ZArith List.\n"
+            "From MiV Require Import %s.\nExtraction Language OCaml.\nCd \"extracted\".\nSeparate Extraction\n  %s.\nCd \"..\".\n"
+            % (" ".join(imports), "\n  ".join(items)))
+    if write_if_changed(os.path.join(COQ, "Extract", "All.v"), allv):
+        for f in os.listdir(os.path.join(COQ, "extracted")):
+            os.remove(os.path.join(COQ, "extracted", f))
+    lines = open(os.path.join(COQ, "_CoqProject")).read().splitlines()
+    if "Extract/All.v" not in lines:
+        open(os.path.join(COQ, "_CoqProject"), "a").write("Extract/All.v\n")
+    if not os.listdir(os.path.join(COQ, "extracted")):
+        try: os.remove(os.path.join(COQ, "Extract", "All.vo"))
+        except OSError: pass
+    ok, txt, cmd = coq_make(["Extract/All.vo"])
+    if not ok:
+        return False, txt
     with Lock():
         ext = os.path.join(COQ, "extracted")
         names = set()
